@@ -230,6 +230,10 @@ func Tier() int {
 // Yield is a point where the engine may let all other goroutines run until they block. Natively: a short sleep.
 func Yield() { time.Sleep(2 * time.Millisecond) }
 
+// SetCarrier tells the engine what the stubbed token finder of hagall-common ("header", "query", "cookie")
+// returns. Natively the harness builds a real HTTP request instead.
+func SetCarrier(name, token string) {}
+
 // ConcreteClock makes the engine's clock concrete: every time.Now() advances by step nanoseconds
 // (0 = back to an arbitrary non-decreasing clock). Natively the real clock is used.
 func ConcreteClock(step int64) {}
